@@ -10,10 +10,21 @@ CAUGHT = {  # which invariant of which check reports it (quick tier), and whethe
  "C07-m1": ("C07 success-monotone-in-quota", False), "C07-m2": ("C07 cost-independent-of-quota", False), "C07-m3": ("C07 cost-within-documented-model", False),
  "C09-m1": ("C09 decode-terminated-is-value (EINTR)", True), "C09-m2": ("C09 decode-128-rejects-out-of-range", True), "C09-m3": ("C09 decode-128-rejects-out-of-range (in-message)", True),
  "C20-m1": ("C20 recursion-within-configured-depth (patch_rebased.diff)", False), "C20-m2": ("C20 generated-value-inhabits-type", True), "C20-m3": ("C20 generator-no-panic", True),
+ # second round
+ "C01-n1": ("C01 no-panic / outcome-independent-of-history (TypeContainer::add, arg after another builder's env_clear)", True),
+ "C01-n2": ("C01 roundtrip-decodes", False), "C03-n1": ("C03 roundtrip-decodes / wellformed-field-order (KeyW)", True), "C03-n2": ("C03 roundtrip-decodes / wellformed-utf8", False),
+ "C04-n1": ("C04 decoded-value-has-receiver-type", True), "C04-n2": ("C04 accepted-subtype-decodes-untyped/native", False),
+ "C05-n1": ("C05 answer-equals-spec-relation (native knot queries)", False), "C05-n2": ("C05 equal-decides-structural-equality", True),
+ "C06-n1": ("C06 decode-no-panic", True), "C06-n2": ("C06 process-death (stack overflow in header parsing)", False),
+ "C07-n1": ("C07 quota-bounds-the-work", True), "C07-n2": ("C07 cost-at-least-bytes-read", False),
+ "C09-n1": ("C09 decode-value (IntFromNatThen8)", True), "C09-n2": ("C09 encode-minimal (I128)", True),
+ "C20-n1": ("C20 recursion-within-configured-depth (family W)", False), "C20-n2": ("C20 recursion-within-configured-depth (size budget)", False),
 }
-for p in ["C01","C03","C04","C05","C06","C07","C09","C20"]:
-    for k in (1,2,3):
-        src = f"/tmp/mut/{p}/out/m{k}"
+ROUNDS = [("/tmp/mut", "m", (1,2,3)), ("/tmp/mut2", "n", (1,2))]
+for base, pre, ks in ROUNDS:
+  for p in ["C01","C03","C04","C05","C06","C07","C09","C20"]:
+    for k in ks:
+        src = f"{base}/{p}/out/{pre}{k}"
         if not os.path.isdir(src): continue
         cf = os.path.join(src, "confirm.json")
         if not os.path.exists(cf):
@@ -22,7 +33,7 @@ for p in ["C01","C03","C04","C05","C06","C07","C09","C20"]:
         ok = conf["applies"] and conf["existing_suite_passes_with_patch"] and conf["demo_fails_with_patch"] and conf["demo_passes_without_patch"]
         if not ok:
             print("NOT kept (confirmation failed):", src, conf); continue
-        dst = f"/verif/seeded/{p}-m{k}"
+        dst = f"/verif/seeded/{p}-{pre}{k}"
         os.makedirs(dst, exist_ok=True)
         shutil.copy(os.path.join(src, "patch.diff"), dst)
         if os.path.exists(os.path.join(src, "patch_rebased.diff")):
@@ -30,11 +41,11 @@ for p in ["C01","C03","C04","C05","C06","C07","C09","C20"]:
         for f in glob.glob(os.path.join(src, "*.rs")):
             shutil.copy(f, dst)
         meta = json.load(open(os.path.join(src, "meta.json")))
-        caught, first = CAUGHT[f"{p}-m{k}"]
+        caught, first = CAUGHT[f"{p}-{pre}{k}"]
         meta.update({
             "breaks_property": p,
             "confirmed_in_scratch_worktree": conf,
-            "what_was_run": f"tools/confirm_mutation.sh {p} {k} (patch applies; cargo test --workspace with patch: 219 pass; demo fails with patch, passes without); tools/try_mutation.sh seeded/{p}-m{k}/patch.diff {p} quick",
+            "what_was_run": f"tools/confirm_mutation.sh {src} (patch applies; cargo test --workspace with patch: 219 pass; demo fails with patch, passes without); tools/try_mutation.sh seeded/{p}-{pre}{k}/patch.diff {p} quick",
             "caught_by": caught,
             "caught_by_first_version_of_the_checks": first,
         })
